@@ -700,6 +700,13 @@ func (s *Server) handleRequest(req *dhcpv4.DHCPv4) (*dhcpv4.DHCPv4, error) {
 	}
 
 	s.leasesMu.Lock()
+	if !isNewSession && s.leases[existingLease.MAC.String()] != existingLease {
+		// The lease being renewed was released or expired while this request
+		// was in flight: its address may already belong to someone else
+		s.leasesMu.Unlock()
+		atomic.AddUint64(&s.naksTotal, 1)
+		return s.buildNAK(req, "lease no longer exists")
+	}
 	s.leases[mac.String()] = lease
 	s.leasesMu.Unlock()
 
@@ -875,6 +882,13 @@ func (s *Server) handleRelease(req *dhcpv4.DHCPv4) {
 	lease, exists := s.leases[mac.String()]
 	if exists {
 		delete(s.leases, mac.String())
+
+		// Release IP back to pool in the same critical section, so that a
+		// concurrent REQUEST never sees "no lease" while the pool still
+		// reserves the address for this client
+		if pool := s.poolMgr.GetPool(lease.PoolID); pool != nil {
+			pool.Release(lease.IP)
+		}
 	}
 	s.leasesMu.Unlock()
 
@@ -930,11 +944,6 @@ func (s *Server) handleRelease(req *dhcpv4.DHCPv4) {
 					zap.Error(err),
 				)
 			}
-		}
-
-		// Release IP back to pool
-		if pool := s.poolMgr.GetPool(lease.PoolID); pool != nil {
-			pool.Release(lease.IP)
 		}
 
 		// Remove from fast path cache (MAC-based)
